@@ -650,3 +650,285 @@ Definition iter_job_path := (fs * Z)%type.      (* outdir/iter_<i> built by os.p
 Definition glob_selected (p : iter_job_path) : list Z := selected_plates (fst p) (snd p).
 (* l[0]: IndexError on an empty list *)
 Definition shead {A} (l : list A) : sres A := match l with a :: _ => SOk a | [] => SRaised [] 98 end.
+
+(* ---------- vocabulary of the source-translation link of main() (harness/src_functions.py C19_MAIN, Generated/SrcOrchMain.v) ----------
+   main() runs in a WORLD: the output directory as it is now, the crash schedule that is left (one entry per call of
+   run_next_*, as in script_run / invocation) and the log of the calls made so far.  The translated main() threads the
+   world through its while-loop; an exception that leaves main() carries the world it leaves behind.
+     args                         the argparse result: args.mode is a string (argparse's `choices` admits two), args.batch_size an
+                                  int; os.path.abspath(args.outdir) denotes THE output directory of the world (OutDir),
+                                  os.path.abspath(args.screen) the screen the operator gave this invocation (SInput)
+     remaining_args               the operator's extra words (opaque)
+     run_next                     a variable that holds one of the two translated functions (stepfn)
+     world_call                   should_run_again = run_next(output_dir=.., input_screen=.., extra_args=.., batch_size=..): the
+                                  function is applied to the tree as it is NOW; what it would do if nothing interfered (its
+                                  result in sres: value + actions ending in the launch / exception after some actions / named
+                                  directory) is played against the next schedule entry by exec_result - the rule of [attempt],
+                                  stated on the function's result instead of on the model's plan - which also says whether the
+                                  call hands its value back to main() (only if it ran to its return: not interrupted, no
+                                  exception, pipeline exit status 0).  No entry left = the observation ends (IExhausted). *)
+Inductive modename := NRetrospective | NProspective | NOther (which : Z).
+Definition modename_eqb (a b : modename) : bool :=
+  match a, b with
+  | NRetrospective, NRetrospective => true
+  | NProspective, NProspective => true
+  | NOther x, NOther y => x =? y
+  | _, _ => false
+  end.
+Definition modename_of (md : mode) : modename := match md with Retro => NRetrospective | Prosp => NProspective end.
+Record margs := mka { a_mode : modename; a_batch_size : Z }.
+Definition eargs := list Z.
+Inductive opath := OutDir.
+Definition stepfn := fs -> spath -> eargs -> Z -> sres (bool * list action).
+Record world := mkw { w_fs : fs; w_sched : list entry; w_calls : list logitem }.
+
+(* the exception monad of main(): MEnd how w = main() does not go on (how = IRaised: an exception propagates out of it;
+   IExhausted: the observation ends), leaving world w.  MNoFuel: the explicit fuel of the while-loop ran out (not a Python
+   behaviour; links are stated for sufficient fuel). *)
+Inductive mres (A : Type) :=
+| MOk (a : A)
+| MEnd (how : iend) (w : world)
+| MNoFuel.
+Arguments MOk {A} a.
+Arguments MEnd {A} how w.
+Arguments MNoFuel {A}.
+Definition mbind {A B} (r : mres A) (k : A -> mres B) : mres B :=
+  match r with MOk a => k a | MEnd h w => MEnd h w | MNoFuel => MNoFuel end.
+Notation "'dom' x <- e ; k" := (mbind e (fun x => k))
+  (at level 200, x pattern, e at level 100, k at level 200, right associativity).
+(* `while True:` left by `break`, on explicit fuel (as PyRt.res_while): the body answers (go on?, state) *)
+Fixpoint mwhile {St : Type} (fuel : nat) (body : St -> mres (bool * St)) (s : St) : mres St :=
+  match fuel with
+  | O => MNoFuel
+  | S k => dom r <- body s; if fst r then mwhile k body (snd r) else MOk (snd r)
+  end.
+
+(* the events of a call that would perform [acts] (three directory actions, then the launch or the exception AFail) and, if
+   it gets to its return, hand back [ret]: the PActs branch of [attempt] *)
+Definition run_events (n : nat) (f : fs) (e : entry) (acts : list action) (ret : option bool) : fs * logitem * option bool :=
+  let k := e_k e in
+  let pre := firstn 3 acts in
+  if (k <? 4)%nat then (fold_left (fun f a => apply_action a f) (firstn k pre) f, GStopped k, None)
+  else
+    let f3 := fold_left (fun f a => apply_action a f) pre f in
+    match nth 3 acts (AFail 0) with
+    | ALaunch s l =>
+        let o := outputs n f3 l in
+        let allp := pubs_of o (e_order e) in
+        let ps := firstn (k - 4) allp in
+        let ok := ((length allp <=? k - 4)%nat && complete_run Retro l o) in      (* complete_run does not depend on the mode *)
+        (publish_all s o ps (upd_plate s (set_by l) f3), GLaunch s l ps ok, if ok then ret else None)
+    | AFail w => (f3, GFail w, None)
+    | _ => (f3, GFail 0, None)
+    end.
+(* what the world makes of one call, given what the called function says it does on tree f *)
+Definition exec_result (n : nat) (f : fs) (e : entry) (res : sres (bool * list action)) : fs * logitem * option bool :=
+  match res with
+  | SNamed w s => (rmtree s f, GNamed w s, None)             (* RuntimeError naming s; the operator removes s *)
+  | SOk (b, []) => (f, GDone, Some b)                         (* returned without touching anything *)
+  | SOk (b, acts) => run_events n f e acts (Some b)
+  | SRaised done w => run_events n f e (done ++ [AFail w]) None
+  end.
+Definition world_call (n : nat) (run : stepfn) (w : world) (o : opath) (s : spath) (x : eargs) (b : Z) : mres (bool * world) :=
+  match w_sched w with
+  | [] => MEnd IExhausted w
+  | e :: rest =>
+      let '(f1, g, ret) := exec_result n (w_fs w) e (run (w_fs w) s x b) in
+      let w1 := mkw f1 rest (w_calls w ++ [g]) in
+      match ret with Some v => MOk (v, w1) | None => MEnd IRaised w1 end
+  end.
+(* an invocation of the model as a result of the translated main() started with call log [calls0] *)
+Definition mres_of_ires (calls0 : list logitem) (r : ires) : mres world :=
+  let w := mkw (r_fs r) (r_rest r) (calls0 ++ r_calls r) in
+  match r_end r with IReturned => MOk w | how => MEnd how w end.
+
+(* ---------- vocabulary of the source-translation link of the run_* command builders (harness/src_functions.py C19_RUN_*,
+   Generated/SrcOrchCmd.v) ----------
+   A command line is the list of its words; an item is None when the caller handed None where a string is needed.
+     word                    WLit = a string literal of the source (its code points); the other constructors are the values
+                             the builders put on the command line: get_main_nf_file(), a screen path, the job output directory,
+                             its work directory, the experiment name, the two glob patterns get_theta_and_dist_chunks returns,
+                             "--excludes=<ids joined by commas>", a word of the operator's extra arguments (opaque; the model
+                             assumes it is none of the script's own options)
+     join_words              ' '.join(cmd) inside the logged f-string: TypeError on a None item, before anything is started
+     check_call              subprocess.check_call(cmd, cwd=<repository root>): TypeError on a None item; otherwise the process
+                             is started.  What nextflow makes of the words (launch_of_words) is read off main.nf and the three
+                             workflows: `nextflow run <main.nf>`, then options `--key value` (opt_value: the word after the first
+                             occurrence of the key); params.mode selects the workflow; RETROSPECTIVE takes params.screen when
+                             params.initialize is true and params.training_screen / params.test_screen otherwise;
+                             NEXT_BATCH_PLATE takes screen, thetas, distance_matrix (globs under ONE job directory in the model)
+                             and the excludes; the files are published under params.outdir.  Any other command line is no launch
+                             of the model (nextflow exits with an error: CalledProcessError, why = 8).  -work-dir, --name and the
+                             extra words are not interpreted (Abstracted, header). *)
+Inductive tglob := TGlob (s : step).      (* os.path.join(<job dir>, "*", "thetas*.h5") *)
+Inductive dglob := DGlob (s : step).      (* os.path.join(<job dir>, "*", "distance_matrix_chunk*.h5") *)
+Inductive word :=
+| WLit (s : list Z)
+| WMainNf
+| WScreen (p : spath)
+| WJob (s : step)
+| WWork (s : step)
+| WName (e : ename)
+| WThetas (s : step)
+| WDist (s : step)
+| WExcludes (l : list Z)
+| WExtra (x : Z).
+Definition word_of_tglob (g : tglob) : word := match g with TGlob s => WThetas s end.
+Definition word_of_dglob (g : dglob) : word := match g with DGlob s => WDist s end.
+Definition extra_word (x : Z) : option word := Some (WExtra x).
+
+From Coq Require Strings.String Strings.Ascii.
+Definition lit (s : String.string) : list Z :=
+  map (fun a => Z.of_N (Ascii.N_of_ascii a)) (String.list_ascii_of_string s).
+Section Literals.
+Import Coq.Strings.String.
+Definition L_nextflow : list Z := Eval compute in lit "nextflow".
+Definition L_run : list Z := Eval compute in lit "run".
+Definition L_mode : list Z := Eval compute in lit "--mode".
+Definition L_retrospective : list Z := Eval compute in lit "retrospective".
+Definition L_prospective : list Z := Eval compute in lit "prospective".
+Definition L_next_plate : list Z := Eval compute in lit "next_plate".
+Definition L_screen : list Z := Eval compute in lit "--screen".
+Definition L_training_screen : list Z := Eval compute in lit "--training_screen".
+Definition L_test_screen : list Z := Eval compute in lit "--test_screen".
+Definition L_outdir : list Z := Eval compute in lit "--outdir".
+Definition L_initialize : list Z := Eval compute in lit "--initialize".
+Definition L_true : list Z := Eval compute in lit "true".
+Definition L_reveal : list Z := Eval compute in lit "--reveal".
+Definition L_thetas : list Z := Eval compute in lit "--thetas".
+Definition L_distance_matrix : list Z := Eval compute in lit "--distance_matrix".
+End Literals.
+
+Fixpoint zlist_eqb (a b : list Z) : bool :=
+  match a, b with
+  | [], [] => true
+  | x :: a', y :: b' => (x =? y) && zlist_eqb a' b'
+  | _, _ => false
+  end.
+(* the value of option `key`: the word after the first occurrence of the literal `key` *)
+Fixpoint opt_value (key : list Z) (ws : list word) : option word :=
+  match ws with
+  | [] => None
+  | w :: r =>
+      match w, r with
+      | WLit s, v :: _ => if zlist_eqb s key then Some v else opt_value key r
+      | _, _ => opt_value key r
+      end
+  end.
+Definition is_lit (s : list Z) (w : option word) : bool :=
+  match w with Some (WLit t) => zlist_eqb t s | _ => false end.
+(* --excludes=<ids>: the first such word; none = nothing excluded *)
+Fixpoint excludes_of (ws : list word) : list Z :=
+  match ws with
+  | [] => []
+  | WExcludes l :: _ => l
+  | _ :: r => excludes_of r
+  end.
+Definition step_eqb (a b : step) : bool := (fst a =? fst b) && (snd a =? snd b).
+
+Definition launch_of_options (opts : list word) : option (step * launch) :=
+  match opt_value L_outdir opts with
+  | Some (WJob s) =>
+      if is_lit L_retrospective (opt_value L_mode opts) then
+        if is_lit L_true (opt_value L_initialize opts) then
+          match opt_value L_screen opts with Some (WScreen p) => Some (s, LInit p) | _ => None end
+        else
+          match opt_value L_training_screen opts, opt_value L_test_screen opts with
+          | Some (WScreen tr), Some (WScreen te) => Some (s, LFirst tr te)
+          | _, _ => None
+          end
+      else if is_lit L_prospective (opt_value L_mode opts) then
+        match opt_value L_screen opts with Some (WScreen p) => Some (s, LProsp p) | _ => None end
+      else if is_lit L_next_plate (opt_value L_mode opts) && is_lit L_true (opt_value L_reveal opts) then
+        match opt_value L_screen opts, opt_value L_thetas opts, opt_value L_distance_matrix opts with
+        | Some (WScreen p), Some (WThetas t), Some (WDist d) =>
+            if step_eqb t d then Some (s, LNext p t (excludes_of opts)) else None
+        | _, _, _ => None
+        end
+      else None
+  | _ => None
+  end.
+Definition launch_of_words (ws : list word) : option (step * launch) :=
+  match ws with
+  | WLit p :: WLit r :: WMainNf :: opts =>
+      if zlist_eqb p L_nextflow && zlist_eqb r L_run then launch_of_options opts else None
+  | _ => None
+  end.
+
+Fixpoint all_words (cmd : list (option word)) : option (list word) :=
+  match cmd with
+  | [] => Some []
+  | Some w :: r => match all_words r with Some ws => Some (w :: ws) | None => None end
+  | None :: _ => None
+  end.
+Definition join_words (done : list action) (cmd : list (option word)) : sres (list action) :=
+  match all_words cmd with Some _ => SOk done | None => SRaised done 9 end.
+Definition check_call (done : list action) (cmd : list (option word)) : sres (list action) :=
+  match all_words cmd with
+  | None => SRaised done 9
+  | Some ws =>
+      match launch_of_words ws with
+      | Some (s, l) => SOk (done ++ [ALaunch s l])
+      | None => SRaised done 8
+      end
+  end.
+
+(* ---------- vocabulary of the source-translation link of dir_sort_key (harness/src_functions.py C19_DIR_SORT_KEY) ----------
+   Here a path is its NAME: the list of its components, each a string (list of code points).  The directory names the
+   script creates are "iter_<i>" / "plate_<j>" with <i> the decimal numeral of a natural number (f-string of an int).
+     basename       os.path.basename: the last component
+     split_on 95    s.split("_"): the maximal pieces between separators (always at least one piece)
+     snth 1         l[1]: IndexError when there is no second piece
+     int_of_str     int(s) for an ASCII decimal numeral without sign; anything else is why = 7: ValueError - or one of
+                    the numeral forms Python accepts beyond that (sign, surrounding white space, non-ASCII digits), which the
+                    model does not represent *)
+Definition str := list Z.
+Definition fspath := list str.
+Definition basename (p : fspath) : str := last p [].
+Fixpoint split_on (sep : Z) (s : str) : list str :=
+  match s with
+  | [] => [[]]
+  | c :: r =>
+      if c =? sep then [] :: split_on sep r
+      else match split_on sep r with p :: ps => (c :: p) :: ps | [] => [[c]] end
+  end.
+Definition snth {A} (k : nat) (l : list A) : sres A :=
+  match nth_error l k with Some a => SOk a | None => SRaised [] 98 end.
+Fixpoint uint_chars (u : Decimal.uint) : str :=
+  match u with
+  | Decimal.Nil => []
+  | Decimal.D0 r => 48 :: uint_chars r | Decimal.D1 r => 49 :: uint_chars r | Decimal.D2 r => 50 :: uint_chars r
+  | Decimal.D3 r => 51 :: uint_chars r | Decimal.D4 r => 52 :: uint_chars r | Decimal.D5 r => 53 :: uint_chars r
+  | Decimal.D6 r => 54 :: uint_chars r | Decimal.D7 r => 55 :: uint_chars r | Decimal.D8 r => 56 :: uint_chars r
+  | Decimal.D9 r => 57 :: uint_chars r
+  end.
+Fixpoint uint_of_chars (s : str) : option Decimal.uint :=
+  match s with
+  | [] => Some Decimal.Nil
+  | c :: r =>
+      match uint_of_chars r with
+      | None => None
+      | Some u =>
+          if c =? 48 then Some (Decimal.D0 u) else if c =? 49 then Some (Decimal.D1 u) else if c =? 50 then Some (Decimal.D2 u)
+          else if c =? 51 then Some (Decimal.D3 u) else if c =? 52 then Some (Decimal.D4 u) else if c =? 53 then Some (Decimal.D5 u)
+          else if c =? 54 then Some (Decimal.D6 u) else if c =? 55 then Some (Decimal.D7 u) else if c =? 56 then Some (Decimal.D8 u)
+          else if c =? 57 then Some (Decimal.D9 u) else None
+      end
+  end.
+Definition int_of_str (s : str) : sres Z :=
+  match s with
+  | [] => SRaised [] 7
+  | _ => match uint_of_chars s with Some u => SOk (Z.of_nat (Nat.of_uint u)) | None => SRaised [] 7 end
+  end.
+(* f"<prefix>_{i}" for an int i >= 0 *)
+Definition numbered (prefix : str) (i : nat) : str := prefix ++ 95 :: uint_chars (Nat.to_uint i).
+Section DirNames.
+Import Coq.Strings.String.
+Definition S_iter : str := Eval compute in lit "iter".
+Definition S_plate : str := Eval compute in lit "plate".
+End DirNames.
+(* the NAME of a globbed iteration / plate directory of the tree under an output directory named [out]: the path whose model
+   value (examine's configuration) is iter_path d / plate_path p *)
+Definition iter_pathname (out : fspath) (d : iter_path) : fspath := out ++ [numbered S_iter (Z.to_nat (fst d))].
+Definition plate_pathname (out : fspath) (p : plate_path) : fspath :=
+  out ++ [numbered S_iter (Z.to_nat (fst (fst p))); numbered S_plate (Z.to_nat (snd (fst p)))].
